@@ -17,7 +17,7 @@ from oracles import ref
 LEVEL = "exploration"
 RULE = ("product of population alphabet (N=2..4, log-weight vectors incl. ties, -inf, 1e3 spreads) x temperature pairs"
         " x requested size x namespace x dtype x {fresh object, object whose diagnostics were evaluated and whose log-likelihood was then re-assigned in place}; for each, every index tuple the generator can return is executed"
-        " (explorer over ChoiceRNG.choice).  non-trivial = incremental weights not all equal; distinct = distinct"
+        " (explorer over ChoiceRNG.choice); plus explored runs of the real sampler loop (fixed / adaptive / floor+cap schedules, incl. runs the cap ends below temperature 1, x n_final_samples in {none, smaller, larger}): every probability vector handed to the generator is the normalised incremental weight of the step about to be taken.  non-trivial = incremental weights not all equal; distinct = distinct"
         " (population, betas, size, ns, dtype, tuple)")
 ASSUMPTIONS = [
     "the generator is a numpy-Generator-like object whose choice(n,size,replace,p) is honest about p",
@@ -134,6 +134,38 @@ def run_config(cfg):
     return r.dump()
 
 
+AS_RUN = [
+    {"adaptive": False, "n_steps": 2},
+    {"adaptive": True, "target_efficiency": 0.9},
+    {"adaptive": True, "target_efficiency": (0.3, 0.8), "min_step": 0.2, "max_n_steps": 3},
+    # runs that the step cap ends below temperature 1 (the enlargement is then a real step to 1)
+    {"adaptive": False, "n_steps": 3, "max_n_steps": 2},
+    {"adaptive": True, "target_efficiency": 0.9, "min_step": 0.2, "max_n_steps": 2},
+]
+
+
+def as_run(cfg):
+    """The probability vectors handed to the generator during explored runs of the real sampler loop."""
+    from env.schedule_harness import run_execution
+    from oracles.smc_oracles import check_resampling
+
+    r = Report()
+    for ex in explorer.explore(lambda ctx: run_execution(ctx, cfg), bound=cfg.get("bound", 2)):
+        rec = ex.result
+        case = {"as_run": True, "cfg": cfg, "choices": ex.choices}
+        r.case(explorer.digest(case), nontrivial=rec["history"] is not None and len(rec["history"]["beta"]) > 1)
+        for sig, detail in check_resampling(rec):
+            r.violation(sig, detail, case)
+        if rec["history"]:
+            r.outcomes.add(explorer.digest([rec["history"]["beta"], [list(p[2]) for p in rec["p_records"]]]))
+    r.sample({"as_run": True, "cfg": cfg})
+    return r.dump()
+
+
+def dispatch(job):
+    return globals()[job[0]](job[1])
+
+
 def configs(tier):
     out = []
     for n, menu in A_MENU.items():
@@ -162,11 +194,30 @@ def run(tier, seed, workers):
     for d in pmap("checks.c09", "run_config", cfgs, workers, chunksize=8):
         rep.merge(d)
     rep.count("configs", len(cfgs))
+    jobs = []
+    for sampler in ("smc", "emcee_smc"):
+        for o in AS_RUN:
+            if sampler == "emcee_smc" and ("min_step" in o or "max_n_steps" in o):
+                continue
+            for nf in (None, 3, 6):
+                opts = dict(o)
+                if nf is not None:
+                    opts["n_final_samples"] = nf
+                jobs.append({"N": 4 if nf != 3 else 4, "opts": opts, "sampler": sampler, "menu": ["flat", "mild", "peaked"],
+                             "max_decisions": 2, "max_resamplings": 2, "bound": 2 if tier == "quick" else 3, "init_dead": False})
+    for d in pmap("checks.c09", "as_run", jobs, workers):
+        rep.merge(d)
+    rep.count("as_run_configs", len(jobs))
     return rep
 
 
 def replay(case):
     r = Report()
+    if case.get("as_run"):
+        from checks.c06 import _fix
+
+        r.merge(as_run(_fix(case["cfg"])))
+        return r
     cfg = (case["a"], tuple(case["betas"]), case["size"], case["ns"], case["dtype"], case.get("variant", "fresh"))
     cfg = (tuple(-math.inf if v == "-inf" else v for v in cfg[0]),) + cfg[1:]
     r.merge(run_config(cfg))
